@@ -1,16 +1,19 @@
 """C12 — what is sent respects what the peer said it can accept."""
 import ssm_common as S
+import ssm_c11c12 as X
 
 PROP = 'C12'
-COQ_TARGETS = ['theories/SsmFacts.vo', 'theories/SsmC12.vo']
-COQ_IMPORTS = S.COQ_IMPORTS
+COQ_TARGETS = ['theories/SsmFacts.vo', 'theories/SsmC12.vo', 'theories/SsmDevInfo.vo', 'theories/SsmDevInfoFacts.vo']
+COQ_IMPORTS = 'From Bac Require Import Base Ssm SsmWorld SsmDevInfo.'
 RULE = ('cases: fault-free transactions over pairs of local and peer capabilities (max-APDU in the six standard sizes, max-segments '
         '{unspecified,2,4,...,64,>64}, the four segmentation values on each side, proposed windows {1,2,8,127}, peer data known from '
         'I-Am / unknown / out of date, max-NPDU known or not) with request and response lengths around every boundary these induce; a '
         'raw peer proposing / acknowledging windows 0, 1, 2, 127, 128, 200, 255; a raw peer that acknowledges a segmented response (or request) '
         'of a real node with a window that changes from ack to ack (1..8, shrinking and growing), acknowledging a number still inside the new window; I-Am PDUs arriving mid-history (reduced / enlarged capabilities while a transaction with that peer is open, '
         'then requests sized between the old and the new limits); records of the client that contradict the SA bit of its request, or carry a max-segments figure off the 2,4,8.. grid and different from the one in the request; '
-        'a peer recorded as transmit-only that sends us a segmented request before we send it an oversized one.  Compared: the whole canonical trace, which '
+        'a peer recorded as transmit-only that sends us a segmented request before we send it an oversized one; nodes built as app.Application around a caller-supplied DeviceInfoCache (empty at construction, '
+        'records and later I-Ams arriving through the caller\'s handle) with requests sized around the limits of the record; histories of I-Am / acquire / release / Application construction on the bare DeviceInfoCache '
+        '(same instance at a new address, new instance at a known address, repeated I-Ams with other limits).  Compared: the whole canonical trace, which '
         'includes the encoded length of every APDU, the segmentation flags and the window fields.  non-trivial = at least one frame; '
         'distinct by scenario.')
 TRUSTED = S.TRUSTED
@@ -33,6 +36,9 @@ def cases(rng, tier):
         out.append(S.scenario_case(S.gen_record_maxsegs(rng), 'record-max-segments'))
     for _ in range(300 if tier == 'thorough' else 40):
         out.append(S.scenario_case(S.gen_bidir_records(rng), 'peer-segments-to-us'))
+    for _ in range(300 if tier == 'thorough' else 40):
+        out.append(X.scenario_case2(X.gen_app_cache(rng), 'cache-through-application'))
+    out += X.cache_cases(rng, 1500 if tier == 'thorough' else 120)
     return out
 
 
@@ -48,11 +54,31 @@ def direct(rng, tier, focus=()):
             ('transaction', lambda r: S.gen_transaction(r, big=r.random() < 0.2), 10000 if big else 1000)]
     failures, stats = S.direct_families(rng, fams, lambda tr: S.check_c12(tr) + [x for x in S.check_c05(tr) if x['kind'] == 'window-exceeded'], focus)
     failures.extend(S.known_replays('C12', S.check_c12))
+    f2, stats = X.direct_families2(rng, [('cache-through-application', lambda r: X.gen_app_cache(r), 4000 if big else 400)], S.check_c12, stats)
+    failures.extend(f2)
+    # the DeviceInfoCache class alone; histories in which no two devices claim one address (see docs/C12.md)
+    nh = 0
+    for _ in range(20000 if big else 2000):
+        ops = [o for o in X.gen_cache_history(rng) if o[0] != 'iam' or o[2] in (o[1], o[1] + 10)]
+        failures.extend(X.check_cache_history(ops))
+        nh += 1
+    import core as _core
+    for e in _core.load_findings('C12'):
+        kops = ((e.get('replay') or {}).get('failure') or {}).get('ops')
+        if e.get('status') == 'known' and kops:
+            failures.extend(X.check_cache_history(kops))
+    stats['evaluations'] += nh
+    stats['cache_histories'] = nh
     return failures, stats
 
 
 def classify(f):
     k = f.get('kind')
+    if k in ('cache-exception', 'record-is-not-the-latest-iam', 'acquire-is-not-the-latest-iam'):
+        # known: two device instances announced from one address leave orphaned keys behind (KeyError on a later move)
+        if (k != 'cache-exception' or f.get('class') == 'KeyError') and X.address_shared(f.get('ops') or [], f.get('at')):
+            return 'C12-K5'
+        return None
     if k == 'apdu-longer-than-peer-max':
         # known: the payload slice is cut to the peer's maximum and the 3..6 octet header comes on top
         if f.get('payload_len', 10 ** 9) <= f.get('limit', 0) and f.get('enc_len', 0) - f.get('payload_len', 0) <= 6:
@@ -76,4 +102,11 @@ def classify(f):
 
 
 def replay(payload):
-    S.replay_generic(payload, S.check_c12, 'C12')
+    ops = (payload.get('failure') or {}).get('ops')
+    if ops:
+        print('DeviceInfoCache history:', ops)
+        print('implementation:', X.run_cache_history(ops))
+        for x in X.check_cache_history(ops):
+            print('  FAIL', {k: v for k, v in x.items() if k != 'ops'})
+        return
+    X.replay2(payload, S.check_c12, 'C12')
